@@ -4,8 +4,6 @@ import (
 	"fmt"
 	"go/constant"
 	"go/token"
-	"sort"
-	"strings"
 
 	"golang.org/x/tools/go/ssa"
 
@@ -15,7 +13,11 @@ import (
 func init() {
 	register(&Def{
 		ID: "C15",
-		Explanation: "Structural necessary conditions of 'traversal controls only restrict a walk': (once) each recursive walk function consults the node budget exactly once per activation - the check sits in the entry block, outside every loop, and dominates the visit callback and all recursion; (owners) the budget counters, the resume flag PastStartAtPath and the seen-link set are read and written only by the frozen set of functions that implement them (an extra consultation elsewhere changes what a sufficient budget or a start path yields); (threshold) the budget checks fail exactly when the remaining allowance is below 1 and otherwise decrement by exactly 1; (linkbudget) every link load in package traversal is dominated by a passed link-budget check; (seen) under LinkVisitOnlyOnce the load is behind a seen-set lookup whose hit returns without loading, and links are recorded only in the traverse phase; (skip) a SkipMe error from the loader becomes a nil return at the load site. " +
+		Explanation: "Structural necessary conditions of 'traversal controls only restrict a walk'. The functions are found by role (package traversal: who decrements which Budget counter, who invokes the user's callback, who loads blocks, who leads back to itself), with unexported helpers expanded at their call sites, so the rules do not depend on how the walk is split into functions or what they are called: " +
+			"(once) in every recursive walk function every invocation of the user's callback and every recursive descent lies behind a decrement of the node budget (or the no-budget-configured edge), no second decrement is reachable from the first within one activation, and each recursion cycle contains exactly one node-budget spending site; " +
+			"(owners) the controls are touched only in the ways that implement them: a Budget counter is read only by functions that also spend it (or copy the Budget), PastStartAtPath is only ever latched (stored a value known to be true), and insertions into SeenLinks happen only under LinkVisitOnlyOnce behind a failed lookup of the same key; " +
+			"(threshold) every spending site reachable from a recursive walk fails exactly when the counter is <= 0 and otherwise decrements by exactly 1; (linkbudget) every block load in package traversal is behind a link-budget decrement; " +
+			"(seen) under LinkVisitOnlyOnce a walk's load is behind a seen-set lookup whose hit cannot reach the load, and the visiting walk records links only in the traverse phase; (skip) a SkipMe error from the loader becomes a nil return in the visiting walk. " +
 			"The prefix/suffix/subsequence relations to the unrestricted walk are value-level and not decided.",
 		NotCovered: []string{"prefix / suffix / subsequence relations themselves", "start-at-path arithmetic", "preloader interaction (documented as approximate)"},
 		Trusted:    []string{"go/ssa, go/types"},
@@ -23,252 +25,315 @@ func init() {
 	})
 }
 
-// budgetCheckEdges: nil edges of tests on the result of a call to the named budget-check method.
-func budgetCheckNilEdges(fn *ssa.Function, name string) (map[core.Edge]bool, []*ssa.Call) {
-	edges := map[core.Edge]bool{}
-	var calls []*ssa.Call
-	for _, ci := range core.Calls(fn) {
-		cv := core.CallValue(ci)
-		if cv == nil {
-			continue
-		}
-		if cal := cv.Call.StaticCallee(); cal != nil && cal.Name() == name {
-			calls = append(calls, cv)
-			for e := range core.EdgesWhere(fn, func(r core.Rel) bool { return r.Op == token.EQL && core.Strip(r.X) == ssa.Value(cv) && core.IsNilConst(r.Y) }) {
-				edges[e] = true
-			}
-		}
-	}
-	return edges, calls
+// noBudgetEdges: edges on which Progress.Budget == nil (no budget configured: nothing to spend).
+func noBudgetEdges(fn *ssa.Function) map[core.Edge]bool {
+	return core.EdgesWhere(fn, func(r core.Rel) bool {
+		return r.Op == token.EQL && core.IsFieldRef(r.X, "Progress", "Budget") && core.IsNilConst(r.Y)
+	})
+}
+
+func isSpendOf(field string) func(ssa.Instruction) bool {
+	return func(in ssa.Instruction) bool { _, ok := isSpend(in, field); return ok }
 }
 
 func runC15(c *core.Ctx) {
 	p := c.P
-	const rel = "traversal"
+	tr := newTravRoles(p)
 
-	c.Rule("C15.once", "walkAdv, WalkLocal and walkTransforming call checkNodeBudget exactly once, in their entry block (outside every loop); the visit callback, the transform callback and every recursive descent are reachable only over the nil edge of that call's error", 3)
-	for _, name := range []string{"walkAdv", "WalkLocal", "walkTransforming"} {
-		fn := p.Func(rel, "Progress", name)
-		if fn == nil {
-			c.Undecided(rel+".Progress."+name, "-", "not found")
+	// ---------------------------------------------------------------- once
+	c.Rule("C15.once", "in every recursive walk function whose activation spends the node budget: each invocation of the user's callback and each recursive descent is reachable from the entry only by passing a decrement of Budget.NodeBudget (or the edge on which no budget is configured); from a decrement no second decrement is reachable within the activation (the check is outside every loop); and the functions of its recursion cycle contain exactly one spending site between them", 3)
+	var walkers []*ssa.Function
+	for _, fn := range tr.fns {
+		if fn.Parent() != nil || !tr.recursive(fn) || !tr.underWalkAPI(fn) {
 			continue
 		}
+		spends := false
+		core.InstrsR(fn, func(in ssa.Instruction) {
+			if _, ok := isSpend(in, "NodeBudget"); ok {
+				spends = true
+			}
+		})
+		if spends {
+			walkers = append(walkers, fn)
+		}
+	}
+	for _, fn := range walkers {
 		key := core.FuncKey(fn)
-		edges, calls := budgetCheckNilEdges(fn, "checkNodeBudget")
-		if len(calls) != 1 {
-			c.Fail(key+"#budget-once", p.Pos(fn.Pos()), fmt.Sprintf("checkNodeBudget is called %d times in one activation (must be exactly once per visited node)", len(calls)))
-			continue
-		}
-		inEntry := calls[0].Block() == fn.Blocks[0]
-		// everything that visits or descends
-		bad := false
+		spend := isSpendOf("NodeBudget")
+		nob := noBudgetEdges(fn)
+		bad := ""
 		var wp []string
-		for _, g := range core.WithClosures(fn) {
-			if g != fn {
-				continue
-			}
-			for _, ci := range core.Calls(g) {
-				cc := ci.Common()
-				isVisit := false
-				if cal := cc.StaticCallee(); cal != nil {
-					switch cal.Name() {
-					case "visit", "walkAdv", "WalkLocal", "walkTransforming", "WalkTransforming", "explore", "walk_transform_iterateList", "walk_transform_iterateMap", "reify":
-						isVisit = core.FuncPkg(cal) == core.FuncPkg(fn)
-					}
-				} else if !cc.IsInvoke() {
-					if _, isB := cc.Value.(*ssa.Builtin); !isB {
-						if prm, ok := cc.Value.(*ssa.Parameter); ok && prm.Parent() == fn {
-							isVisit = true // the user's callback parameter
-						}
-					}
-				}
-				if !isVisit {
-					continue
-				}
-				if path, reached := core.Reach(fn, nil, isTarget(ci), edges, nil); reached {
-					bad = true
-					wp = p.Witness(path)
-				}
-			}
-		}
-		c.Check(inEntry && !bad, key+"#budget-once", p.Pos(calls[0].Pos()), "one budget check, in the entry block, before any visit or descent", "the node budget check is not the single entry-block check that every visit and descent is behind", wp...)
-	}
-
-	c.Rule("C15.owners", "who may touch the controls: Budget.NodeBudget and Budget.LinkBudget are accessed only by checkNodeBudget / checkLinkBudget, Budget.Clone, Progress.get and focusedTransform; Progress.PastStartAtPath is written only by walkAdv's descent closure; Progress.SeenLinks is written only by Progress.init, explore and the transforming iterators", 6)
-	owners := map[string]map[string]bool{
-		"Budget.NodeBudget":        {"(traversal.Progress).checkNodeBudget": true, "(*traversal.Budget).Clone": true, "(*traversal.Progress).get": true, "(traversal.Progress).focusedTransform": true},
-		"Budget.LinkBudget":        {"(traversal.Progress).checkLinkBudget": true, "(*traversal.Budget).Clone": true, "(*traversal.Progress).get": true, "(traversal.Progress).focusedTransform": true},
-		"Progress.PastStartAtPath": {"(traversal.Progress).walkAdv$1": true},
-		"Progress.SeenLinks":       {"(*traversal.Progress).init": true, "(traversal.Progress).explore": true, "(traversal.Progress).walk_transform_iterateList": true, "(traversal.Progress).walk_transform_iterateMap": true},
-	}
-	writeOnly := map[string]bool{"Progress.PastStartAtPath": true, "Progress.SeenLinks": true}
-	found := map[string]map[string]string{}
-	for _, fn := range p.ModFns {
-		pk := core.FuncPkg(fn)
-		if pk == nil || core.RelPkg(pk.Path()) != rel || len(fn.Blocks) == 0 || fn.Synthetic != "" {
-			continue
-		}
-		core.Instrs(fn, func(in ssa.Instruction) {
-			var fa *ssa.FieldAddr
-			isWrite := false
-			switch x := in.(type) {
-			case *ssa.Store:
-				fa, _ = x.Addr.(*ssa.FieldAddr)
-				isWrite = true
-			case *ssa.UnOp:
-				if x.Op == token.MUL {
-					fa, _ = x.X.(*ssa.FieldAddr)
-				}
-			case *ssa.MapUpdate:
-				if u, ok := x.Map.(*ssa.UnOp); ok {
-					fa, _ = u.X.(*ssa.FieldAddr)
-					isWrite = true
-				}
-			}
-			if fa == nil {
-				return
-			}
-			fnm := core.FieldName(fa)
-			if _, tracked := owners[fnm]; !tracked {
-				return
-			}
-			if writeOnly[fnm] && !isWrite {
-				return
-			}
-			// whole-struct copies of Progress (by-value receivers) are not accesses of the control
-			if found[fnm] == nil {
-				found[fnm] = map[string]string{}
-			}
-			found[fnm][core.FuncKey(fn)] = p.Pos(in.Pos())
-		})
-	}
-	var fields []string
-	for f := range owners {
-		fields = append(fields, f)
-	}
-	sort.Strings(fields)
-	for _, f := range fields {
-		var fns []string
-		for fn := range found[f] {
-			fns = append(fns, fn)
-		}
-		sort.Strings(fns)
-		if len(fns) == 0 {
-			c.Undecided("traversal#"+f+"-owners", "-", "no access to "+f+" found at all")
-		}
-		for _, fn := range fns {
-			c.Check(owners[f][fn], fmt.Sprintf("%s#touches:%s", fn, f), found[f][fn], "owner of this control", fn+" reads or writes "+f+" but is not one of the functions that implement that control: the control is consulted or changed at an extra point of the walk (a sufficient budget can now fail, or visits after a start path go missing)")
-		}
-	}
-
-	c.Rule("C15.threshold", "checkNodeBudget and checkLinkBudget: the error branch is taken exactly when the counter is <= 0 (i.e. below 1), and on the other branch the counter is stored back decremented by exactly 1", 2)
-	for _, spec := range []struct{ fn, field string }{{"checkNodeBudget", "Budget.NodeBudget"}, {"checkLinkBudget", "Budget.LinkBudget"}} {
-		fn := p.Func(rel, "Progress", spec.fn)
-		if fn == nil {
-			c.Undecided(rel+".Progress."+spec.fn, "-", "not found")
-			continue
-		}
-		isCounter := func(v ssa.Value) bool {
-			u, ok := v.(*ssa.UnOp)
-			if !ok || u.Op != token.MUL {
-				return false
-			}
-			fa, ok := u.X.(*ssa.FieldAddr)
-			return ok && core.FieldName(fa) == spec.field
-		}
-		thresholdOK := false
-		var errEdge *core.Edge
-		for _, e := range core.IfEdges(fn) {
-			r, ok := core.EdgeRel(e)
-			if !ok {
-				continue
-			}
-			if !isCounter(r.X) {
-				r = r.Flip()
-			}
-			if !isCounter(r.X) {
-				continue
-			}
-			if ub, ok := r.UpperBoundConst(); ok && r.Op != token.EQL {
-				// edge on which counter <= ub: must be the error edge with ub == 0
-				e2 := e
-				errEdge = &e2
-				thresholdOK = constant.Compare(ub, token.EQL, constant.MakeInt64(0))
-			}
-		}
-		decOK := false
-		core.Instrs(fn, func(in ssa.Instruction) {
-			st, ok := in.(*ssa.Store)
-			if !ok {
-				return
-			}
-			fa, ok := st.Addr.(*ssa.FieldAddr)
-			if !ok || core.FieldName(fa) != spec.field {
-				return
-			}
-			if bo, ok := st.Val.(*ssa.BinOp); ok && bo.Op == token.SUB && isCounter(bo.X) {
-				if k, isC := core.ConstInt(bo.Y); isC && k == 1 {
-					decOK = true
-					// the decrement must not be on the error edge's side
-					if errEdge != nil && core.EdgeDominates(*errEdge, st.Block()) {
-						decOK = false
-					}
-				}
-			}
-		})
-		errReturns := false
-		if errEdge != nil {
-			errReturns = !reachFromBlock(fn, errEdge.To(), func(in ssa.Instruction) bool {
-				ret, ok := in.(*ssa.Return)
-				return ok && core.ResultNilness(ret, 0) != core.NonNil
-			}, nil)
-		}
-		c.Check(thresholdOK && decOK && errReturns, core.FuncKey(fn)+"#threshold", p.Pos(fn.Pos()), "fails iff remaining < 1, otherwise decrements by 1", spec.fn+" does not fail exactly when the remaining allowance is <= 0 and decrement by exactly 1 otherwise (off-by-one in budget accounting)")
-	}
-
-	c.Rule("C15.linkbudget", "every call of LinkSystem.Load / Fill in package traversal, and every call of the walk's loadLink helper's loading part, is dominated by a passed link-budget check (nil edge of checkLinkBudget, or the not-exhausted edge of an inline comparison of Budget.LinkBudget)", 3)
-	for _, fn := range p.ModFns {
-		pk := core.FuncPkg(fn)
-		if pk == nil || core.RelPkg(pk.Path()) != rel || len(fn.Blocks) == 0 || fn.Synthetic != "" {
-			continue
-		}
+		pos := fn.Pos()
 		n := 0
-		for _, ci := range core.Calls(fn) {
-			if !(core.IsMethod(ci, "", "LinkSystem", "Load") || core.IsMethod(ci, "", "LinkSystem", "Fill")) {
+		for _, ci := range core.CallsR(fn) {
+			if !userCallback(fn, ci) && !tr.descent(fn, ci) {
 				continue
 			}
 			n++
-			edges, _ := budgetCheckNilEdges(fn, "checkLinkBudget")
-			// inline form: `if prog.Budget != nil { if LinkBudget <= 0 {return}; LinkBudget-- }`: passing the decrement or the Budget==nil edge
-			inlineDec := func(in ssa.Instruction) bool {
-				st, ok := in.(*ssa.Store)
-				if !ok {
-					return false
-				}
-				fa, ok := st.Addr.(*ssa.FieldAddr)
-				return ok && core.FieldName(fa) == "Budget.LinkBudget"
+			if path, reached := core.Reach(fn, nil, isTarget(ci), nob, spend); reached {
+				bad = "a visit or descent is reachable without the node budget having been spent for this node"
+				wp = p.Witness(path)
+				pos = ci.Pos()
 			}
-			noBudget := core.EdgesWhere(fn, func(r core.Rel) bool {
-				return r.Op == token.EQL && core.IsFieldRef(r.X, "Progress", "Budget") && core.IsNilConst(r.Y)
+		}
+		// closures that descend (the per-child step of the walk) are entered from the activation: they must be created only after the spend
+		for _, an := range fn.AnonFuncs {
+			descends := false
+			for _, ci := range core.CallsR(an) {
+				if tr.descent(fn, ci) || userCallback(fn, ci) {
+					descends = true
+				}
+			}
+			if !descends {
+				continue
+			}
+			n++
+			isMk := func(in ssa.Instruction) bool {
+				mc, ok := in.(*ssa.MakeClosure)
+				return ok && mc.Fn == ssa.Value(an)
+			}
+			if path, reached := core.Reach(fn, nil, isMk, nob, spend); reached {
+				bad = "the descending closure is set up on a path that has not spent the node budget"
+				wp = p.Witness(path)
+			}
+		}
+		var first ssa.Instruction
+		core.InstrsR(fn, func(in ssa.Instruction) {
+			if spend(in) && first == nil {
+				first = in
+			}
+		})
+		if first != nil {
+			if path, reached := core.Reach(fn, first, spend, nil, nil); reached {
+				bad = "a second decrement of the node budget is reachable within one activation (the check sits in a loop or is repeated)"
+				wp = p.Witness(path)
+			}
+		}
+		// one spending site per recursion cycle
+		sites := 0
+		for _, g := range tr.cycleOf(fn) {
+			sites += len(spendsIn(g, "NodeBudget"))
+			for _, ci := range core.Calls(g) {
+				if h := core.RegionOf(g).HelperOf(ci); h != nil {
+					hs := false
+					core.InstrsR(h, func(in ssa.Instruction) {
+						if spend(in) {
+							hs = true
+						}
+					})
+					if hs {
+						sites++
+					}
+				}
+			}
+		}
+		if sites != 1 && bad == "" {
+			bad = fmt.Sprintf("the recursion cycle of this walk contains %d node-budget spending sites (exactly one per visited node is required)", sites)
+		}
+		if n == 0 && bad == "" {
+			bad = "no callback invocation or recursive descent recognised in a recursive walk function"
+		}
+		c.Check(bad == "", key+"#budget-once", p.Pos(pos), "one node-budget spend per activation, before every visit and descent", bad, wp...)
+	}
+
+	// ---------------------------------------------------------------- owners
+	c.Rule("C15.owners", "the controls are touched only in the ways that implement them: (a) a function of the library that reads Budget.NodeBudget / LinkBudget also decrements that counter in its own body, or only copies it into another Budget; (b) every store to Progress.PastStartAtPath stores a value known to be true at that point (the flag latches, it is never recomputed or reset); (c) every insertion into Progress.SeenLinks is behind the true edge of Config.LinkVisitOnlyOnce and behind the miss edge of a comma-ok lookup of the same key in SeenLinks", 6)
+	for _, fn := range p.ModFns {
+		pk := core.FuncPkg(fn)
+		if pk == nil || !libraryPkg(core.RelPkg(pk.Path())) || len(fn.Blocks) == 0 || fn.Synthetic != "" {
+			continue
+		}
+		key := core.FuncKey(fn)
+		for _, field := range []string{"NodeBudget", "LinkBudget"} {
+			var reads []ssa.Instruction
+			onlyCopies := true
+			core.Instrs(fn, func(in ssa.Instruction) {
+				u, ok := in.(*ssa.UnOp)
+				if !ok || !counterLoad(u, field) {
+					return
+				}
+				reads = append(reads, in)
+				// a copy: the loaded value is stored into the same field of another Budget and used for nothing else
+				for _, ref := range *u.Referrers() {
+					st, isSt := ref.(*ssa.Store)
+					if !isSt {
+						onlyCopies = false
+						continue
+					}
+					if fa, ok := st.Addr.(*ssa.FieldAddr); !ok || core.FieldName(fa) != "Budget."+field {
+						onlyCopies = false
+					}
+				}
 			})
-			path, reached := core.Reach(fn, nil, isTarget(ci), union(edges, noBudget), inlineDec)
-			c.Check(!reached, fmt.Sprintf("%s#load%d", core.FuncKey(fn), n), p.Pos(ci.Pos()), "behind a link-budget check", "a block load is reachable without a link-budget check: the link budget does not bound loads on this path", p.Witness(path)...)
+			if len(reads) == 0 {
+				continue
+			}
+			ok := len(spendsIn(fn, field)) > 0 || onlyCopies
+			c.Check(ok, fmt.Sprintf("%s#touches:Budget.%s", key, field), p.Pos(reads[0].Pos()), "reads the counter only to spend it (or to copy the budget)", key+" consults Budget."+field+" without spending it: the control is looked at at an extra point of the walk (a sufficient budget can now fail, or a walk stops earlier than the budget allows)")
+		}
+		core.Instrs(fn, func(in ssa.Instruction) {
+			switch x := in.(type) {
+			case *ssa.Store:
+				fa, ok := x.Addr.(*ssa.FieldAddr)
+				if !ok || core.FieldName(fa) != "Progress.PastStartAtPath" {
+					return
+				}
+				known := false
+				if b, isC := core.ConstBool(x.Val); isC && b {
+					known = true
+				}
+				if !known {
+					// the stored value is a boolean the store is guarded by: if v { prog.PastStartAtPath = v }
+					for e := range core.BoolEdgesWhere(fn, func(v ssa.Value) bool { return core.SameLoad(v, x.Val) || core.Strip(v) == core.Strip(x.Val) }, true) {
+						if core.EdgeDominates(e, x.Block()) {
+							known = true
+						}
+					}
+				}
+				c.Check(known, fmt.Sprintf("%s#latches:Progress.PastStartAtPath", key), p.Pos(x.Pos()), "the resume flag is only ever latched to true", key+" stores a computed value into Progress.PastStartAtPath: the flag is recomputed (or reset) at an extra point, so nodes after the start path can be skipped or nodes before it visited")
+			case *ssa.MapUpdate:
+				if !core.IsFieldRef(x.Map, "Progress", "SeenLinks") {
+					return
+				}
+				onceFalse := core.BoolEdgesWhere(fn, func(v ssa.Value) bool { return core.IsFieldRef(v, "Config", "LinkVisitOnlyOnce") }, true)
+				_, unguarded := core.Reach(fn, nil, isTarget(in), onceFalse, nil)
+				isMiss := func(ifi *ssa.If) bool {
+					cnd, _ := core.CondPolarity(ifi.Cond)
+					e, ok := core.RegionOf(fn).Canon(cnd).(*ssa.Extract)
+					if !ok || e.Index != 1 {
+						return false
+					}
+					lk, ok := e.Tuple.(*ssa.Lookup)
+					return ok && lk.CommaOk && core.IsFieldRef(lk.X, "Progress", "SeenLinks") && core.SameValue(lk.Index, x.Key)
+				}
+				// a hit must not reach the insertion: the lookup decides
+				okG, path := guardedBy(fn, nil, in, isIterNext, isMiss)
+				c.Check(!unguarded && okG, fmt.Sprintf("%s#records:Progress.SeenLinks", key), p.Pos(x.Pos()), "links are recorded only under LinkVisitOnlyOnce, after a failed lookup of the same link", key+" records a link in Progress.SeenLinks outside the LinkVisitOnlyOnce / not-yet-seen path", p.Witness(path)...)
+			}
+		})
+	}
+
+	// ---------------------------------------------------------------- threshold
+	c.Rule("C15.threshold", "every function in which a recursive walk spends a budget counter takes the error branch exactly when the counter is <= 0 (i.e. below 1), stores the counter back decremented by exactly 1 on the other branch only, and the error branch cannot return success", 2)
+	spenders := map[*ssa.Function]map[string]bool{}
+	for _, fn := range tr.fns {
+		if fn.Parent() != nil || !tr.recursive(fn) {
+			continue
+		}
+		for _, field := range []string{"NodeBudget", "LinkBudget"} {
+			core.InstrsR(fn, func(in ssa.Instruction) {
+				if _, ok := isSpend(in, field); ok {
+					g := in.Parent()
+					if spenders[g] == nil {
+						spenders[g] = map[string]bool{}
+					}
+					spenders[g][field] = true
+				}
+			})
+		}
+	}
+	for _, fn := range tr.fns {
+		for _, field := range []string{"LinkBudget", "NodeBudget"} {
+			if !spenders[fn][field] {
+				continue
+			}
+			thresholdOK := false
+			var errEdge *core.Edge
+			for _, b := range fn.Blocks {
+				if core.BlockIf(b) == nil {
+					continue
+				}
+				for s := 0; s < 2; s++ {
+					e := core.Edge{From: b, Succ: s}
+					r, ok := core.EdgeRel(e)
+					if !ok {
+						continue
+					}
+					if !counterLoad(r.X, field) {
+						r = r.Flip()
+					}
+					if !counterLoad(r.X, field) {
+						continue
+					}
+					if ub, ok := r.UpperBoundConst(); ok && r.Op != token.EQL {
+						e2 := e
+						errEdge = &e2
+						thresholdOK = constant.Compare(ub, token.EQL, constant.MakeInt64(0))
+					}
+				}
+			}
+			decOK := false
+			for _, sp := range spendsIn(fn, field) {
+				if k, _ := isSpend(sp, field); k == 1 {
+					decOK = true
+					if errEdge != nil && core.EdgeDominates(*errEdge, sp.Block()) {
+						decOK = false
+					}
+				} else {
+					decOK = false
+					break
+				}
+			}
+			errReturns := false
+			if errEdge != nil {
+				ei := core.ErrResultIndex(fn)
+				errReturns = ei >= 0 && !reachFromBlock(fn, errEdge.To(), func(in ssa.Instruction) bool {
+					ret, ok := in.(*ssa.Return)
+					return ok && core.ResultNilness(ret, ei) != core.NonNil
+				}, nil)
+			}
+			c.Check(thresholdOK && decOK && errReturns, fmt.Sprintf("%s#threshold:%s", core.FuncKey(fn), field), p.Pos(fn.Pos()), "fails iff remaining < 1, otherwise decrements by 1", core.FuncKey(fn)+" does not fail exactly when the remaining "+field+" is <= 0 and decrement by exactly 1 otherwise (off-by-one in budget accounting)")
 		}
 	}
 
-	c.Rule("C15.seen", "in explore: every call that loads a link (loadLink) is, on paths where LinkVisitOnlyOnce is true, behind a comma-ok lookup in SeenLinks whose hit edge cannot reach the load; the insertion into SeenLinks is behind the phase == traverse edge", 2)
-	if fn := p.Func(rel, "Progress", "explore"); fn != nil {
-		key := core.FuncKey(fn)
-		var loads []ssa.CallInstruction
+	// ---------------------------------------------------------------- linkbudget
+	c.Rule("C15.linkbudget", "every call of LinkSystem.Load / Fill in package traversal is reachable from the entry of the function it belongs to (helpers expanded into their callers) only by passing a decrement of Budget.LinkBudget or the edge on which no budget is configured", 3)
+	for _, fn := range tr.fns {
+		n := 0
 		for _, ci := range core.Calls(fn) {
-			if cal := ci.Common().StaticCallee(); cal != nil && cal.Name() == "loadLink" {
+			if !isBlockLoad(ci) {
+				continue
+			}
+			n++
+			path, reached := core.Reach(fn, nil, isTarget(ci), noBudgetEdges(fn), isSpendOf("LinkBudget"))
+			c.Check(!reached, fmt.Sprintf("%s#load%d", core.FuncKey(fn), n), p.Pos(ci.Pos()), "behind a link-budget spend", "a block load is reachable without the link budget having been spent: the link budget does not bound loads on this path", p.Witness(path)...)
+		}
+	}
+
+	// ---------------------------------------------------------------- seen
+	c.Rule("C15.seen", "in every walk function that consults Config.LinkVisitOnlyOnce: each block load it performs (directly or through its loading helper) is, on paths where LinkVisitOnlyOnce is true, behind a comma-ok lookup in SeenLinks whose hit edge cannot reach the load; in the visiting walk (the function with a phase parameter) the insertion into SeenLinks is behind the phase == traverse edge", 2)
+	for _, fn := range tr.fns {
+		if fn.Parent() != nil {
+			continue
+		}
+		// a walk function that honours LinkVisitOnlyOnce: it (or a non-recursive helper of it) reads the flag and looks links up in SeenLinks
+		consults, looksUp := false, false
+		core.InstrsR(fn, func(in ssa.Instruction) {
+			if g := in.Parent(); g != fn && tr.recursive(g) {
+				return // part of the recursion below this function, looked at in its own right
+			}
+			if u, ok := in.(*ssa.UnOp); ok && core.IsFieldRef(u, "Config", "LinkVisitOnlyOnce") {
+				consults = true
+			}
+			if lk, ok := in.(*ssa.Lookup); ok && lk.CommaOk && core.IsFieldRef(lk.X, "Progress", "SeenLinks") {
+				looksUp = true
+			}
+		})
+		if !consults || !looksUp || tr.absorbed(fn) {
+			continue
+		}
+		key := core.FuncKey(fn)
+		rg := core.RegionOf(fn)
+		var loads []ssa.CallInstruction
+		for _, ci := range core.CallsR(fn) {
+			if isBlockLoad(ci) {
 				loads = append(loads, ci)
 			}
 		}
 		onceFalse := core.BoolEdgesWhere(fn, func(v ssa.Value) bool { return core.IsFieldRef(v, "Config", "LinkVisitOnlyOnce") }, false)
 		isSeenGuard := func(ifi *ssa.If) bool {
 			cnd, _ := core.CondPolarity(ifi.Cond)
-			e, ok := cnd.(*ssa.Extract)
+			e, ok := rg.Canon(cnd).(*ssa.Extract)
 			if !ok || e.Index != 1 {
 				return false
 			}
@@ -276,40 +341,54 @@ func runC15(c *core.Ctx) {
 			return ok && lk.CommaOk && core.IsFieldRef(lk.X, "Progress", "SeenLinks")
 		}
 		for i, ld := range loads {
-			okG, path := guardedByBlocked(fn, nil, ld, nil, isSeenGuard, onceFalse)
+			okG, path := guardedByBlocked(fn, nil, ld, isIterNext, isSeenGuard, onceFalse)
 			c.Check(okG, fmt.Sprintf("%s#seen-before-load%d", key, i+1), p.Pos(ld.Pos()), "seen-set consulted before loading", "with LinkVisitOnlyOnce a link load is reachable without a deciding lookup in SeenLinks: a link can be loaded twice", p.Witness(path)...)
 		}
 		if len(loads) == 0 {
-			c.Undecided(key+"#seen-before-load", p.Pos(fn.Pos()), "no loadLink call found")
+			c.Undecided(key+"#seen-before-load", p.Pos(fn.Pos()), "the function consults LinkVisitOnlyOnce but no block load was found in it or its helpers")
 		}
-		core.Instrs(fn, func(in ssa.Instruction) {
-			mu, ok := in.(*ssa.MapUpdate)
-			if !ok || !core.IsFieldRef(mu.Map, "Progress", "SeenLinks") {
-				return
-			}
-			trav := core.EdgesWhere(fn, func(r core.Rel) bool {
-				prm, isP := r.X.(*ssa.Parameter)
-				cv := core.ConstVal(r.Y)
-				return r.Op == token.EQL && isP && strings.HasSuffix(prm.Type().String(), "phase") && cv != nil
+		if ph := phaseParam(fn); ph != nil {
+			core.InstrsR(fn, func(in ssa.Instruction) {
+				mu, ok := in.(*ssa.MapUpdate)
+				if !ok || !core.IsFieldRef(mu.Map, "Progress", "SeenLinks") {
+					return
+				}
+				trav := core.EdgesWhere(fn, func(r core.Rel) bool {
+					cv := core.ConstVal(r.Y)
+					return r.Op == token.EQL && core.Strip(r.X) == ssa.Value(ph) && cv != nil
+				})
+				path, reached := core.Reach(fn, nil, isTarget(in), trav, nil)
+				c.Check(len(trav) > 0 && !reached, key+"#seen-insert-traverse-only", p.Pos(mu.Pos()), "recorded only in the traverse phase", "a link is recorded as seen outside the traverse phase (the preload pass would make the real pass skip it)", p.Witness(path)...)
 			})
-			path, reached := core.Reach(fn, nil, isTarget(in), trav, nil)
-			c.Check(len(trav) > 0 && !reached, key+"#seen-insert-traverse-only", p.Pos(mu.Pos()), "recorded only in the traverse phase", "a link is recorded as seen outside the traverse phase (the preload pass would make the real pass skip it)", p.Witness(path)...)
-		})
-	} else {
-		c.Undecided(rel+".Progress.explore", "-", "not found")
+		}
 	}
 
-	c.Rule("C15.skip", "at every load site of the visiting walk (explore) the error of loadLink is tested for the SkipMe type and that case returns nil: skipping a block removes exactly that subtree and is not an error", 1)
-	if fn := p.Func(rel, "Progress", "explore"); fn != nil {
+	// ---------------------------------------------------------------- skip
+	c.Rule("C15.skip", "in the visiting walk (the function with a phase parameter that loads blocks, helpers expanded) the loader's error is tested for the SkipMe type and that case returns nil: skipping a block removes exactly that subtree and is not an error", 1)
+	for _, fn := range tr.fns {
+		if fn.Parent() != nil || phaseParam(fn) == nil {
+			continue
+		}
+		loadsBlocks := false
+		for _, ci := range core.CallsR(fn) {
+			if isBlockLoad(ci) {
+				loadsBlocks = true
+			}
+		}
+		if !loadsBlocks || tr.absorbed(fn) {
+			continue
+		}
 		key := core.FuncKey(fn)
+		rg := core.RegionOf(fn)
+		ei := core.ErrResultIndex(fn)
 		ok := false
 		for _, b := range fn.Blocks {
 			ifi := core.BlockIf(b)
 			if ifi == nil {
 				continue
 			}
-			cnd, _ := core.CondPolarity(ifi.Cond)
-			e, isE := cnd.(*ssa.Extract)
+			cnd, neg := core.CondPolarity(ifi.Cond)
+			e, isE := rg.Canon(cnd).(*ssa.Extract)
 			if !isE || e.Index != 1 {
 				continue
 			}
@@ -320,15 +399,19 @@ func runC15(c *core.Ctx) {
 			if nt := namedOfType(ta.AssertedType); nt == nil || nt.Obj().Name() != "SkipMe" {
 				continue
 			}
-			// the true edge leads only to returns with a nil error
-			onlyNil := !reachFromBlock(fn, b.Succs[0], func(in ssa.Instruction) bool {
+			succ := 0
+			if neg {
+				succ = 1
+			}
+			// the is-SkipMe edge leads only to returns with a nil error
+			onlyNil := ei >= 0 && !reachFromBlock(fn, b.Succs[succ], func(in ssa.Instruction) bool {
 				ret, isR := in.(*ssa.Return)
-				return isR && core.ResultNilness(ret, 0) != core.IsNil
+				return isR && core.ResultNilness(ret, ei) != core.IsNil
 			}, nil)
 			if onlyNil {
 				ok = true
 			}
 		}
-		c.Check(ok, key+"#skipme-is-silent", p.Pos(fn.Pos()), "SkipMe becomes a nil return", "explore does not turn a SkipMe error from the loader into a silent nil return")
+		c.Check(ok, key+"#skipme-is-silent", p.Pos(fn.Pos()), "SkipMe becomes a nil return", "the visiting walk does not turn a SkipMe error from the loader into a silent nil return")
 	}
 }
